@@ -1583,6 +1583,10 @@ def engine_crash(pid, tier):
                     vs = cp.variants(n, rng, "quick" if big else tier)
                     if tier == "thorough" and n > 0 and not big:
                         vs = vs + [(f"torn{n-1}", None)]
+                    if npl > 8000:
+                        # bounded: beyond 8 000 power-loss images of one history only the two extreme variants of each crash point
+                        vs = vs[:2]
+                        stats[hname]["power_loss_variants_reduced_after_images"] = 8000
                     for vname, subset in vs:
                         files = dm.image(frozenset(range(n)), torn=n - 1) if subset is None else dm.image(subset)
                         d = os.path.join(shm, f"{hname}-pl{j}")
